@@ -155,6 +155,30 @@ def exitClass (ndelay : Nat) (syms : List Sym) : Option Lists :=
     stringConstants := names ((pick sorted .const).filter (·.isString))
     outputs := names (outputSyms sorted) }
 
+/-! ## The prefixes `flatten_symbols` leaves on a flat symbol
+
+`tree.flatten_symbols(class_, instance_name)` renames every symbol of an instance to
+`instance_name + "." + name` and — before it looks at the symbol's type at all (elementary,
+derived from an elementary type, or a component class) — removes the first `"input"` and the
+first `"output"` from the prefixes when the instance is nested (`instance_prefix` non-empty). -/
+
+/-- Which branch of `flatten_symbols` handles the symbol's type. -/
+inductive TypeKind where
+  | elementary      -- `Real`, `Integer`, `Boolean`, `String`
+  | derived         -- `type Volt = Real(...)`, also derived from a derived type
+  deriving DecidableEq, Repr
+
+/-- `for kw in ["input", "output"]: try: sym.prefixes.remove(kw) except ValueError: pass`. -/
+def stripNested (p : List String) : List String := (p.erase "input").erase "output"
+
+/-- Prefixes of the flat symbol for a symbol declared with prefixes `p` in an instance whose
+    path is `instPrefix` (`""` for the class being flattened itself). -/
+def flatPrefixes (instPrefix : String) (_kind : TypeKind) (p : List String) : List String :=
+  if instPrefix = "" then p else stripNested p
+
+def flatSym (instPrefix : String) (kind : TypeKind) (s : Sym) : Sym :=
+  { s with name := instPrefix ++ s.name, prefixes := flatPrefixes instPrefix kind s.prefixes }
+
 inductive Outcome where
   | assertionError
   | attributeError
